@@ -76,7 +76,7 @@ def cache_key(tree_hash, job, playback=False):
     h = hashlib.sha256()
     h.update(tree_hash.encode())
     h.update(job.path.encode())
-    h.update(str((job.cap_s, job.mem_gb, playback)).encode())
+    h.update(str((job.cap_s, job.mem_gb, playback, job.kargs)).encode())
     return h.hexdigest()[:40]
 
 
@@ -152,7 +152,8 @@ def run_group(sc, slots, idx, group_jobs, playback=False):
     try:
         logp = os.path.join(sc.root, "log_%s_%d%s.txt" % (group_jobs[0].group, idx, "_pb" if playback else ""))
         rc, wall, timed_out, text = kani.run_batch(
-            sc.repo, pkg, [j.path for j in group_jobs], td, cap, mem, logp, playback=playback)
+            sc.repo, pkg, [j.path for j in group_jobs], td, cap, mem, logp, playback=playback,
+            extra_args=group_jobs[0].kargs)
     finally:
         slots.release(fds)
         shutil.rmtree(td, ignore_errors=True)
@@ -263,6 +264,27 @@ def match_known(sig, failure, job, known):
 
 
 # ------------------------------------------------------------------ replay
+def module_file(job):
+    """harness source file (relative to /verif/harness) that defines the module of a job"""
+    m = job.module
+    table = [
+        (J.MB, "framework::verif_kani::l2", "maybenot/l2.rs"),
+        (J.MB, "framework::verif_kani::fam", "maybenot/l1_family.rs"),
+        (J.MB, "framework::verif_kani", "maybenot/framework_kani.rs"),
+        (J.MB, "state::verif_kani", "maybenot/state_kani.rs"),
+        (J.MB, "dist::verif_kani", "maybenot/dist_kani.rs"),
+        (J.MB, "machine::verif_kani", "maybenot/machine_kani.rs"),
+        (J.SIM, "network::verif_kani", "simulator/network_kani.rs"),
+        (J.SIM, "queue::verif_kani", "simulator/queue_kani.rs"),
+        (J.SIM, "verif_kani", "simulator/lib_kani.rs"),
+        (J.FFI, "verif_kani", "ffi/lib_kani.rs"),
+    ]
+    for pkg, prefix, f in table:
+        if job.pkg == pkg and m.startswith(prefix):
+            return f
+    raise KeyError((job.pkg, m))
+
+
 def native_replay(sc, job, test_src):
     """Compile the counterexample as an ordinary unit test of the scratch copy and run it natively
     (rustc, no CBMC): kani::any() replays the recorded bytes; contract stubs are linked in through
@@ -272,16 +294,7 @@ def native_replay(sc, job, test_src):
         return None, "no playback test emitted"
     tname = m.group(1)
     # append the test to the scratch copy of the harness module
-    mod_file = {
-        (J.MB, "framework::verif_kani"): "maybenot/framework_kani.rs",
-        (J.MB, "state::verif_kani"): "maybenot/state_kani.rs",
-        (J.MB, "dist::verif_kani"): "maybenot/dist_kani.rs",
-        (J.MB, "machine::verif_kani"): "maybenot/machine_kani.rs",
-        (J.SIM, "verif_kani"): "simulator/lib_kani.rs",
-        (J.SIM, "network::verif_kani"): "simulator/network_kani.rs",
-        (J.SIM, "queue::verif_kani"): "simulator/queue_kani.rs",
-        (J.FFI, "verif_kani"): "ffi/lib_kani.rs",
-    }[(job.pkg, job.module)]
+    mod_file = module_file(job)
     hp = os.path.join(sc.harness, mod_file)
     with open(hp) as f:
         orig = f.read()
@@ -290,12 +303,12 @@ def native_replay(sc, job, test_src):
     try:
         with open(hp, "a") as f:
             f.write("\n" + test_src + "\n")
-        for profile in ([], ["--release"]):
+        for profile in ([],):
             env = dict(os.environ)
             env["CARGO_NET_OFFLINE"] = "true"
             env["RUSTFLAGS"] = "--cfg verif_replay_stub"
             env["CARGO_TARGET_DIR"] = sc.target_dir("replay")
-            cmd = ["cargo", "kani", "playback", "-Z", "concrete-playback", "-p", job.pkg] + profile + ["--", tname]
+            cmd = ["cargo", "kani", "playback", "-Z", "concrete-playback", "-p", job.pkg] + profile + ["--", tname, "--nocapture", "--test-threads=1"]
             try:
                 p = subprocess.run(cmd, cwd=sc.repo, env=env, stdout=subprocess.PIPE, stderr=subprocess.STDOUT,
                                    timeout=900, text=True, errors="replace")
@@ -303,12 +316,15 @@ def native_replay(sc, job, test_src):
             except subprocess.TimeoutExpired:
                 out = "timeout"
             outs.append("$ %s\n%s" % (" ".join(cmd), out[-3000:]))
+            # a failing assertion panics; the typed-array Vec views of the harnesses cannot be unwound
+            # (free() of a stack buffer aborts the test process), so the panic message is the witness
+            pm = re.search(r"panicked at ([^\n]*):\n([^\n]*)", out)
             ran = re.search(r"test .*%s .*\.\.\. (FAILED|ok)" % tname, out)
-            if ran:
-                if ran.group(1) == "FAILED":
-                    ok = True
-                elif ok is None:
-                    ok = False
+            if pm:
+                ok = True
+                outs.append("PANIC: %s | %s" % (pm.group(1), pm.group(2)))
+            elif ran and ran.group(1) == "ok" and ok is None:
+                ok = False
     finally:
         with open(hp, "w") as f:
             f.write(orig)
@@ -514,6 +530,7 @@ def main():
     ap.add_argument("--setup", action="store_true")
     ap.add_argument("--job", nargs="*")
     ap.add_argument("--keep", action="store_true")
+    ap.add_argument("--kargs", default=None, help="development aid: override extra cargo-kani flags")
     a = ap.parse_args()
     if a.setup:
         sc = S.Scratch()
@@ -527,7 +544,11 @@ def main():
         sc = S.Scratch(keep=a.keep)
         try:
             os.environ.setdefault("VERIF_NO_CACHE", "1")
-            res = run_jobs(sc, [J.by_name(n) for n in a.job])
+            js = [J.by_name(n) for n in a.job]
+            if a.kargs is not None:
+                for j in js:
+                    j.kargs = a.kargs.split()
+            res = run_jobs(sc, js)
             for n, r in res.items():
                 print(json.dumps({k: v for k, v in r.items() if k not in ("log_tail",)}, indent=1))
                 if r.get("log_tail"):
